@@ -941,7 +941,17 @@ impl<'a, 'r, 'mt> ConstantEvaluateContext<'a, 'r, 'mt> {
                 );
             }
             id if id == self.div_fn => &args[0].v / &args[1].v,
-            id if id == self.rem_fn => &args[0].v % &args[1].v,
+            id if id == self.rem_fn => {
+                // At run time `%` is computed through `div_rem`, whose quotient may overflow for
+                // signed `MIN % -1`, so the quotient must be validated here as well.
+                if let Err(err) = validate_literal(db, args[0].ty, &(&args[0].v / &args[1].v)) {
+                    return to_missing(self.diagnostics.report(
+                        expr.stable_ptr.untyped(),
+                        SemanticDiagnosticKind::LiteralError(err),
+                    ));
+                }
+                &args[0].v % &args[1].v
+            }
             id if id == self.bitand_fn => &args[0].v & &args[1].v,
             id if id == self.bitor_fn => &args[0].v | &args[1].v,
             id if id == self.bitxor_fn => &args[0].v ^ &args[1].v,
